@@ -954,8 +954,8 @@ func run(c *mon.Ctx) {
 	c.Assume("API gaps: cw_index, encryption_algorithm, foreign descriptors and splice_insert component lists cannot be set through the API and are covered by (a) only. Domain restrictions (DESIGN section 3): SetHasSubSegments(true) only on types 0x34/0x36; device restrictions in 0..3; when a command stores a time that it does not encode, pts_adjustment is masked in the byte comparison; delivery sub-flags, durations, components and sub-segment numbers are compared after decoding only where their governing flag makes them present")
 	c.Floor("reencode.foreign_after_segmentation", 50)
 	c.Floor("large.sections", 20)
-	c.Stream("reencode", c.N(30000, 1500000), func(i int, r *gen.Rand) { reencode(c, r) })
-	c.Stream("built", c.N(20000, 1000000), func(i int, r *gen.Rand) { builtFrom(c, r) })
-	c.Stream("histories", c.N(20000, 1000000), func(i int, r *gen.Rand) { history(c, r) })
-	c.Stream("large", c.N(100, 5000), func(i int, r *gen.Rand) { large(c, r) })
+	c.Stream("reencode", c.N(30000, 15000000), func(i int, r *gen.Rand) { reencode(c, r) })
+	c.Stream("built", c.N(20000, 10000000), func(i int, r *gen.Rand) { builtFrom(c, r) })
+	c.Stream("histories", c.N(20000, 10000000), func(i int, r *gen.Rand) { history(c, r) })
+	c.Stream("large", c.N(100, 20000), func(i int, r *gen.Rand) { large(c, r) })
 }
